@@ -11,7 +11,7 @@ import (
 )
 
 var repo = flag.String("repo", "/repo", "repository root")
-var allExtractors = []string{"wire", "classify", "sites", "boxconsts", "adapter", "blocking", "net", "ps"}
+var allExtractors = []string{"wire", "classify", "sites", "boxconsts", "adapter", "blocking", "net", "ps", "locks"}
 
 var outDir = flag.String("out", "/verif/lean/TSSVerif/Gen", "output directory for generated Lean files")
 
@@ -43,6 +43,8 @@ func main() {
 			name, body = "Net", genNet()
 		case "ps":
 			name, body = "Ps", genPs()
+		case "locks":
+			name, body = "Locks", genLocks()
 		default:
 			fmt.Fprintf(os.Stderr, "unknown extractor %q\n", w)
 			os.Exit(2)
